@@ -119,7 +119,7 @@ func jobsFor(prop, tier string) []Job {
 			if !tears || thorough {
 				js = append(js, j)
 			}
-			j5 := mk("crash-w5-close-with-pending-flushes-multikey", params("W", 5, "DRAIN", 0, "IB", 4, "FINALDRAIN", 0, "STALL", 1, "ZONE", 1, "POSTN", 1), 1, tears, false, 1)
+			j5 := mk("crash-w5-close-with-pending-flushes-multikey", params("W", 5, "MEMTHR", 50, "DRAIN", 0, "IB", 4, "FINALDRAIN", 0, "STALL", 1, "ZONE", 1, "POSTN", 1), 1, tears, false, 1)
 			j5.ZoneOnly = true
 			if prop == "C04" || thorough {
 				js = append(js, j5)
